@@ -441,3 +441,109 @@ Proof.
 Qed.
 End NoMix.
 
+
+(** * End to end: definitions accepted by the modelled constructor, any history, every read.
+    No hypothesis on the graph is left; [F_mix] (node functions, not graph) stays only where the history
+    contains per-individual reverts. *)
+Section EndToEnd.
+Variables V M IX : Type.
+Variable defs : list (vdef V).
+Variable r : DagModel.dag.
+Variable v0 : V.
+Variable sm : sem V M IX.
+Hypothesis Hb : DagModel.build (dag_of_defs defs) = DagModel.Ok r.
+
+Local Notation g := (graph_of_build defs r v0).
+Let W : WF g := built_graph_WF V defs r v0 Hb.
+
+Theorem never_stale_built : F_mix g sm ->
+  forall ops, MaskDisciplined g sm (init_store g) ops ->
+  forall k i st v,
+    nth_error (fst (run_now g sm (init_store g) ops)) k = Some st ->
+    snd (step_now g sm (fst (run_now g sm (init_store g) ops)) (Get k i)) = Ok v ->
+    scratch g (values st) i = Some v.
+Proof. intros Fm ops. exact (never_stale_now V M IX g sm W ops Fm). Qed.
+
+Theorem read_is_scratch_built : F_mix g sm ->
+  forall ops, MaskDisciplined g sm (init_store g) ops ->
+  forall k i st,
+    nth_error (fst (run_now g sm (init_store g) ops)) k = Some st ->
+    snd (step_now g sm (fst (run_now g sm (init_store g) ops)) (Get k i)) =
+      match scratch g (values st) i with Some v => Ok v | None => Err InputError end.
+Proof. intros Fm ops. exact (read_after_history_now V M IX g sm W ops Fm). Qed.
+
+Theorem unset_is_error_built : F_mix g sm ->
+  forall ops, MaskDisciplined g sm (init_store g) ops ->
+  forall k i st,
+    nth_error (fst (run_now g sm (init_store g) ops)) k = Some st ->
+    let res := snd (step_now g sm (fst (run_now g sm (init_store g) ops)) (Get k i)) in
+    (res = Err InputError <-> scratch g (values st) i = None) /\ (forall e, res = Err e -> e = InputError).
+Proof. intros Fm ops. exact (unset_is_error_now V M IX g sm W ops Fm). Qed.
+
+Theorem never_stale_full_reverts_built :
+  forall ops, forallb (@no_partial_revert V M IX) ops = true ->
+  forall k i st v,
+    nth_error (fst (run_now g sm (init_store g) ops)) k = Some st ->
+    snd (step_now g sm (fst (run_now g sm (init_store g) ops)) (Get k i)) = Ok v ->
+    scratch g (values st) i = Some v.
+Proof. exact (never_stale_full_reverts_nomix V M IX g sm W). Qed.
+
+(** what a read of the variable NAMED [x] returns, in terms of the definitions only *)
+Lemma read_by_name_of_scratch (res : out V) (vs : vals V) x : x < length defs ->
+  res = match scratch g vs (index_of x (DagModel.order r)) with Some v => Ok v | None => Err InputError end ->
+  (forall v, res = Ok v <-> Eval defs (by_name V r vs) x v) /\
+  (res = Err InputError <-> forall v, ~ Eval defs (by_name V r vs) x v) /\
+  (forall e, res = Err e -> e = InputError).
+Proof.
+  intros Hx ->.
+  destruct (nm_pos V defs r Hb x Hx) as [Hp Ex].
+  assert (S : forall v, scratch g vs (index_of x (DagModel.order r)) = Some v <-> Eval defs (by_name V r vs) x v).
+  { intros v. rewrite (scratch_by_name V defs r v0 Hb vs _ v Hp). now rewrite Ex. }
+  destruct (scratch g vs (index_of x (DagModel.order r))) as [w|].
+  - split; [|split].
+    + intros v. rewrite <- S. split; [now intros [= ->] | now intros [= ->]].
+    + split; [discriminate|]. intros H. exfalso. apply (H w). now apply S.
+    + discriminate.
+  - split; [|split].
+    + intros v. rewrite <- S. split; discriminate.
+    + split; [|reflexivity]. intros _ v H. apply S in H. discriminate.
+    + now intros e [= <-].
+Qed.
+
+Theorem read_by_name_built : F_mix g sm ->
+  forall ops, MaskDisciplined g sm (init_store g) ops ->
+  forall k x st, x < length defs ->
+    nth_error (fst (run_now g sm (init_store g) ops)) k = Some st ->
+    let res := snd (step_now g sm (fst (run_now g sm (init_store g) ops)) (Get k (index_of x (DagModel.order r)))) in
+    (forall v, res = Ok v <-> Eval defs (by_name V r (values st)) x v) /\
+    (res = Err InputError <-> forall v, ~ Eval defs (by_name V r (values st)) x v) /\
+    (forall e, res = Err e -> e = InputError).
+Proof.
+  intros Fm ops HD k x st Hx Hst res. apply read_by_name_of_scratch; [exact Hx|].
+  exact (read_after_history_now V M IX g sm W ops Fm HD k _ st Hst).
+Qed.
+
+Theorem read_by_name_full_reverts_built :
+  forall ops, forallb (@no_partial_revert V M IX) ops = true ->
+  forall k x st, x < length defs ->
+    nth_error (fst (run_now g sm (init_store g) ops)) k = Some st ->
+    let res := snd (step_now g sm (fst (run_now g sm (init_store g) ops)) (Get k (index_of x (DagModel.order r)))) in
+    (forall v, res = Ok v <-> Eval defs (by_name V r (values st)) x v) /\
+    (res = Err InputError <-> forall v, ~ Eval defs (by_name V r (values st)) x v) /\
+    (forall e, res = Err e -> e = InputError).
+Proof.
+  intros ops Hn k x st Hx Hst res. apply read_by_name_of_scratch; [exact Hx|].
+  exact (read_full_reverts_nomix V M IX g sm W ops Hn k _ st Hst).
+Qed.
+End EndToEnd.
+
+(** Acceptance side (C15_accepts): definitions without cycle, self reference, unknown reference or isolated
+    variable ARE accepted, so the theorems above are about all of them. *)
+Theorem accepted_defs_have_WF_graph (V : Type) (defs : list (vdef V)) (v0 : V) :
+  ~ DagModel.cyclic (dag_of_defs defs) -> ~ DagModel.self_loop (dag_of_defs defs) ->
+  ~ DagModel.unknown_ref (dag_of_defs defs) -> ~ DagModel.isolated (dag_of_defs defs) ->
+  exists r, DagModel.build (dag_of_defs defs) = DagModel.Ok r /\ WF (graph_of_build defs r v0).
+Proof.
+  intros H1 H2 H3 H4. destruct (DagProofs.build_accepts _ H1 H2 H3 H4) as [r Hr].
+  exists r. split; [exact Hr | now apply built_graph_WF].
+Qed.
